@@ -200,7 +200,8 @@ def bitop(interp, t, a, b):
     for x, bx in ((a, ba_), (b, bb_)):
         if is_sym(x) and (bx is None or W == 64):
             if p.branch(lnot(land(SymBool(_i(x) >= -lim), SymBool(_i(x) < lim)))):
-                raise Unsupported(f'bitwise operation on integers beyond {W} bits')
+                # operand beyond the bit-vector width: the result is abstracted to an arbitrary integer (sound)
+                return p.int('bigbitop', register=False)
     ba, bb = z3.Int2BV(_i(a), W), z3.Int2BV(_i(b), W)
     r = {ast.BitAnd: ba & bb, ast.BitOr: ba | bb, ast.BitXor: ba ^ bb}[t]
     return SymInt(z3.BV2Int(r, is_signed=True), (-lim, lim - 1))
@@ -845,10 +846,12 @@ def m_struct_pack(interp, fmt, *vals):
         x = _f(v)
         if f == 'f':
             # struct.pack('>f') raises OverflowError when the value rounds to an infinite binary32
-            r32 = z3.fpFPToFP(RNE, x, F32)
-            if p.branch(SymBool(z3.And(z3.fpIsInf(r32), z3.Not(z3.fpIsInf(x))))):
-                raise OverflowError('float too large to pack with f format')
-            return PackedFloat(fmt, SymFloat(z3.fpFPToFP(RNE, r32, F64)), 4)
+            from .sym import to_single
+            rt = to_single(x)
+            if not rt.eq(x):
+                if p.branch(SymBool(z3.And(z3.fpIsInf(rt), z3.Not(z3.fpIsInf(x))))):
+                    raise OverflowError('float too large to pack with f format')
+            return PackedFloat(fmt, SymFloat(rt), 4)
         return PackedFloat(fmt, SymFloat(x), 8)
     raise Unsupported(f'struct.pack({fmt!r}) with symbolic values')
 
@@ -882,8 +885,8 @@ def m_struct_unpack(interp, fmt, data):
 
 def m_c_float(interp, x=0.0):
     if isinstance(x, (SymFloat, SymInt)):
-        r32 = z3.fpFPToFP(RNE, _f(x), F32)
-        return _CVal(SymFloat(z3.fpFPToFP(RNE, r32, F64)))
+        from .sym import to_single
+        return _CVal(SymFloat(to_single(_f(x))))
     return ctypes.c_float(x)
 
 
